@@ -17,9 +17,10 @@ void vf::c14_case(Ctx &c) {
   struct O { uint8_t sub; int bytes; bool map, rd, wr; } OB[6] = {{1, 1, true, true, true}, {2, 2, true, true, true}, {3, 4, true, true, true}, {4, 1, true, true, false}, {5, 1, true, false, true}, {6, 1, false, true, true}};
   for (auto &o : OB) w.add_int(0x2100, o.sub, o.bytes, false, false, o.rd, o.wr, 0x11u * o.sub, o.map, false);
   int nsub = 4 + (int)c.t.below(5);
-  uint32_t tbase = 0x180u + s.nodeid, rbase = 0x200u + s.nodeid;
-  TpdoCfg tc = add_tpdo(w, 0, 0xC0000000u | tbase, 254, 0, 0, {}, nsub);
-  RpdoCfg rc = add_rpdo(w, 0, 0x80000000u | rbase, 254, {}, nsub);
+  int tp = (int)c.t.below(CO_TPDO_N), rp = (int)c.t.below(CO_RPDO_N);      // which TPDO / RPDO channel the node has (parameter objects 1800h+tp, 1A00h+tp, 1400h+rp, 1600h+rp)
+  uint32_t tbase = 0x180u + 0x100u * (uint32_t)tp + s.nodeid, rbase = 0x200u + 0x100u * (uint32_t)rp + s.nodeid;
+  TpdoCfg tc = add_tpdo(w, tp, 0xC0000000u | tbase, 254, 0, 0, {}, nsub);
+  RpdoCfg rc = add_rpdo(w, rp, 0x80000000u | rbase, 254, {}, nsub);
   add_sync(w, 0x80, 0);
   w.finish();
   TObj *ob[6]; for (int i = 0; i < 6; i++) ob[i] = w.lookup(0x2100, OB[i].sub);
@@ -49,7 +50,7 @@ void vf::c14_case(Ctx &c) {
   int steps = 0;
   while (!c.t.exhausted() && steps < (c.thorough ? 140 : 70)) {
     steps++; c.ops++;
-    int k = (int)c.t.below(2); uint16_t com = k ? 0x1400 : 0x1800, mp = k ? 0x1600 : 0x1A00;
+    int k = (int)c.t.below(2); uint16_t com = (uint16_t)(k ? 0x1400 + rp : 0x1800 + tp), mp = (uint16_t)(k ? 0x1600 + rp : 0x1A00 + tp);
     static const uint16_t W[8] = {22, 8, 22, 30, 8, 6, 6, 8};
     uint32_t op = c.t.weighted(W);
     s.clear_tx();
@@ -95,7 +96,7 @@ void vf::c14_case(Ctx &c) {
     } else if (op == 5) { // TPDO activation probe
       if (mode != 3) continue;
       SplitMix r(c.t.u16()); for (int i = 0; i < 4; i++) { uint8_t b[4]; uint32_t v = (uint32_t)r.next(); memcpy(b, &v, 4); memcpy(ob[i]->store, b, ob[i]->width); }
-      s.clear_tx(); s.api_begin(); COTPdoTrigPdo(s.node->TPdo, 0); s.api_end("COTPdoTrigPdo");
+      s.clear_tx(); s.api_begin(); COTPdoTrigPdo(s.node->TPdo, (uint16_t)tp); s.api_end("COTPdoTrigPdo");
       bool consistent = true; int tot = 0; for (int i = 0; i < ac[0].num; i++) { int o = findobj(ac[0].map[i]); int by = (ac[0].map[i] & 0xFF) >> 3; if (o < 0 || by != OB[o].bytes) consistent = false; tot += by; }
       int e = act[0] && !(ac[0].id & 0x80000000u) ? 1 : 0;
       VLOG(c, "probe: trigger TPDO -> %zu frame(s)", s.tx.size());
@@ -145,7 +146,7 @@ namespace {
 
 Registrar reg(Prop{
     "C14",
-    "Cases: node id 1..127, one TPDO and one RPDO (initially invalid, empty mapping, 4..8 mapping sub-indices present) and candidate objects {mappable RW 8/16/32 bit, mappable read-only, mappable write-only, not mappable}; histories of up to 70 (140) expedited SDO writes to 14xx/16xx/18xx/1Axx sub-indices with values from a covering domain "
+    "Cases: node id 1..127, one TPDO and one RPDO on a generated channel number 0..3 (initially invalid, empty mapping, 4..8 mapping sub-indices present) and candidate objects {mappable RW 8/16/32 bit, mappable read-only, mappable write-only, not mappable}; histories of up to 70 (140) expedited SDO writes to 14xx/16xx/18xx/1Axx sub-indices with values from a covering domain "
     "(valid/invalid bit, id change, EXT and RTR bits, types, counts 0..9, entries naming existing / absent index / absent sub-index / non-mappable / wrong-access objects with lengths 8..64 bit), interleaved with NMT start / pre-operational and activation probes (trigger the TPDO, send the RPDO frame, send a SYNC). "
     "Oracle: rule model: accepted only under the CiA 301 preconditions of the statement, abort code 0604 0041h / 0604 0042h where the reason is named (otherwise any abort), every refused write leaves all stored values unchanged, clearly allowed writes are accepted, "
     "invariant at each activation (<= 8 mapped bytes, all targets exist), and the activated PDO behaves exactly as the stored configuration (frame identifier/DLC/content, RPDO effect via full snapshot, a synchronous TPDO of type n answers every n-th SYNC since its activation and an event-driven or invalid one none). "
